@@ -4,6 +4,10 @@ from rules import hayson
 
 def check(ctx):
     rep = ctx.rep
+    from rules import tz as _tz
+    _tz.check_utc_guard(ctx, rep)
+    hayson.check_member_loop(ctx, rep)
+    nic = hayson.check_int_casts(ctx, rep)
     n = hayson.check_tables(ctx, rep, with_spec=True)
     rep.floor("tagged Hayson kinds compared with the specification", n, 13)
     no = hayson.check_order_independence(ctx, rep)
